@@ -274,7 +274,33 @@ class Flow:
                 at = self.p.node_of(e)
             except KeyError:
                 at = None
-        return self._value(e, at, frozenset(), 0)
+        return self._value_rows(e, at, frozenset(), 0)
+
+    def _value_rows(self, e: ast.AST, at, seen: frozenset, depth: int) -> V:
+        """the value of an expression of a statement; inside `for a, b in <table fixed by the source text>:` it is evaluated once per
+        row with the loop variables bound together (a row's handler is applied to that row's datum, not to every row's)"""
+        if self.f is None or at is None or depth > 40:
+            return self._value(e, at, seen, depth)
+        cur = self.g.loop_of.get(at)
+        while cur is not None:
+            loop = self.g.stmt[cur]
+            if isinstance(loop, ast.For) and ("rows", cur) not in seen and len(C.target_names(loop.target)) >= 2:
+                s2 = seen | {("rows", cur)}
+                els = fixed_elems(self._value(loop.iter, cur, s2, depth + 1))
+                if els is not None and 2 <= len(els) <= 16:
+                    outs: List[V] = []
+                    for e_i in els:
+                        old = self.over
+                        self.over = dict(old)
+                        for tn in C.target_names(loop.target):
+                            self.over[(tn, cur)] = (self._unpack(loop.target, tn, e_i), cur)
+                        try:
+                            outs.append(self._value_rows(e, at, s2, depth + 1))
+                        finally:
+                            self.over = old
+                    return alt(outs)
+            cur = self.g.loop_of.get(cur)
+        return self._value(e, at, seen, depth)
 
     def apply_lambda(self, lam: V, args: List[V]) -> Optional[V]:
         """the value of the body of a lambda (evaluated in this function) for the given positional arguments"""
@@ -515,7 +541,7 @@ class Flow:
                     continue
                 if self._seen_under is not None and an not in self._seen_under:
                     continue
-                parts.append((mode, self._value(arg, an, seen | {ckey}, depth + 1), call))
+                parts.append((mode, self._value_rows(arg, an, seen | {ckey}, depth + 1), call))
             if len(parts) > 1:
                 return V("coll", parts=parts, node=node, ctx=self)
         return base
@@ -700,6 +726,8 @@ class Flow:
                         acc = self.apply_value(args[0], [acc, e_i], e) if acc is not None else None
                     if acc is not None:
                         return acc
+            if cn.startswith("str.") and cn.count(".") == 1 and cn != "str.maketrans" and args and not isinstance(e.args[0], ast.Starred):
+                return self._method_call(args[0], cn[4:], args[1:], kw, e)      # str.split(x) is x.split()
             if cn in ("list", "tuple", "deque", "set", "dict") and not args:
                 return V("coll", parts=[], node=e, ctx=self)
             if cn in ("ord", "chr") and len(args) == 1 and args[0].kind == "const":
@@ -994,3 +1022,656 @@ def chains(v: V, resolve_attr: Callable[[str], Optional[V]], limit: int = 200) -
 
     go(v, [], ())
     return out
+
+
+# --------------------------------------------------------------------------- local normalisations (exact rewrites on AST copies)
+# Candidates for promotion into sa/inline.py.  `prepared(repo, f)` = flatten(f) after these rewrites, repeated until nothing changes:
+#
+#   * local function values:  `peek = partial(getitem, tokens, 0)` / `peek = lambda: tokens[0]` / `pop = tokens.popleft` /
+#     `def peek(): return tokens[0]` bound once, from stable names, and used only below the binding  ->  the value is written where
+#     the name is used (`peek()` becomes `tokens[0]`), the binding disappears
+#   * `for T in iter(F, S): BODY else: E`  ->  `while True: t = F(); if t == S: E; break; T = t; BODY`
+#   * `X = [E for T in iter(F, S) if C]` (also list(<generator expression>), return)  ->  the loop that appends
+#   * `while C: BODY else: E` with a call of a private helper in C  ->  `while True: if not C: E; break; BODY` (the inliner does not
+#     inline into the test of a while loop)
+import copy as _copy
+import itertools as _itertools
+
+from ..inline import FunctionValues, Flattener, _is_private, _own_jumps
+
+_SCOPES = (ast.FunctionDef, ast.AsyncFunctionDef, ast.Lambda, ast.ClassDef)
+_fresh = _itertools.count(1)
+_PREPARED: Dict[tuple, Tuple[FuncInfo, FuncInfo]] = {}     # (the argument is kept alive so that its id stays unique)
+
+
+def _paths_of(fn: ast.AST) -> Dict[int, tuple]:
+    """id(node) -> position of the statement that contains the node, as the tuple of (id(statement list), index) from the function
+    body down to that statement (nested function definitions / lambdas count as part of the statement they are written in)"""
+    out: Dict[int, tuple] = {}
+
+    def mark(n: ast.AST, path: tuple):
+        out[id(n)] = path
+        for ch in ast.iter_child_nodes(n):
+            if not isinstance(ch, ast.stmt) or isinstance(n, _SCOPES):
+                mark(ch, path)
+
+    def rec(holder: ast.AST, path: tuple):
+        for fld in ("body", "orelse", "finalbody"):
+            sub = getattr(holder, fld, None)
+            if isinstance(sub, list) and sub and isinstance(sub[0], ast.stmt):
+                for i, s in enumerate(sub):
+                    p = path + ((id(sub), i),)
+                    mark(s, p)
+                    if not isinstance(s, _SCOPES):
+                        rec(s, p)
+        for h in list(getattr(holder, "handlers", []) or []) + list(getattr(holder, "cases", []) or []):
+            rec(h, path)
+
+    rec(fn, ())
+    return out
+
+
+def _block_dominates(a: tuple, b: tuple) -> bool:
+    """the statement at position a is executed before anything at position b, whenever b is executed (same statement list, earlier
+    index, b possibly nested deeper)"""
+    k = len(a)
+    return 0 < k <= len(b) and a[:-1] == b[:k - 1] and a[-1][0] == b[k - 1][0] and a[-1][1] < b[k - 1][1]
+
+
+class _Scope:
+    """binding facts of one function body (a copy that is being rewritten)"""
+
+    def __init__(self, repo: Repo, fi: FuncInfo, fn: ast.FunctionDef):
+        self.repo, self.fi, self.fn = repo, fi, fn
+        self.paths = _paths_of(fn)
+        a = fn.args
+        self.params = {x.arg for x in a.posonlyargs + a.args + a.kwonlyargs + ([a.vararg] if a.vararg else []) + ([a.kwarg] if a.kwarg else [])}
+        own_args = {id(x) for x in a.posonlyargs + a.args + a.kwonlyargs + ([a.vararg] if a.vararg else []) + ([a.kwarg] if a.kwarg else [])}
+        self.stores: Dict[str, List[ast.AST]] = {}
+        self.attr_stores: set = set()
+        self.opaque = False
+        for n in ast.walk(fn):
+            if isinstance(n, ast.Name) and not isinstance(n.ctx, ast.Load):
+                self.stores.setdefault(n.id, []).append(n)
+            elif isinstance(n, (ast.FunctionDef, ast.AsyncFunctionDef, ast.ClassDef)) and n is not fn:
+                self.stores.setdefault(n.name, []).append(n)
+            elif isinstance(n, ast.ExceptHandler) and n.name:
+                self.stores.setdefault(n.name, []).append(n)
+            elif isinstance(n, ast.alias):
+                self.stores.setdefault((n.asname or n.name).split(".")[0], []).append(n)
+            elif isinstance(n, ast.arg) and id(n) not in own_args:
+                self.stores.setdefault(n.arg, []).append(n)
+            elif isinstance(n, ast.Attribute) and not isinstance(n.ctx, ast.Load):
+                self.attr_stores.add(n.attr)
+            elif isinstance(n, (ast.Global, ast.Nonlocal)):
+                self.opaque = True
+            elif isinstance(n, (ast.MatchAs, ast.MatchStar)) and n.name:
+                self.stores.setdefault(n.name, []).append(n)
+            elif isinstance(n, ast.MatchMapping) and n.rest:
+                self.stores.setdefault(n.rest, []).append(n)
+        self.local_names = set(self.stores) | self.params
+        self.fv = FunctionValues(repo, fi, self.local_names)
+        # name -> the statement that is its only binding, when that is a plain assignment `name = value` / `name: T = value`
+        self.single: Dict[str, ast.stmt] = {}
+        for n in ast.walk(fn):
+            tgt = None
+            if isinstance(n, ast.Assign) and len(n.targets) == 1 and isinstance(n.targets[0], ast.Name):
+                tgt = n.targets[0]
+            elif isinstance(n, ast.AnnAssign) and isinstance(n.target, ast.Name) and n.value is not None:
+                tgt = n.target
+            if tgt is not None and len(self.stores.get(tgt.id, [])) == 1 and tgt.id not in self.params:
+                self.single[tgt.id] = n
+
+    def is_global(self, name: str) -> bool:
+        return name not in self.local_names
+
+    def stable_name(self, name: str, at: tuple, bound: frozenset = frozenset()) -> bool:
+        """the name denotes the same object at the position `at` and at every later position that `at` block-dominates"""
+        if name in bound:
+            return True
+        if name in self.params:
+            return not self.stores.get(name)
+        if name not in self.local_names:
+            return True
+        st = self.single.get(name)
+        return st is not None and _block_dominates(self.paths.get(id(st), ()), at)
+
+    def stable_path(self, e: ast.AST, at: tuple, bound: frozenset = frozenset()) -> bool:
+        """a name / attribute chain on a stable name whose attributes are not assigned in this function"""
+        while isinstance(e, ast.Attribute):
+            if e.attr in self.attr_stores:
+                return False
+            e = e.value
+        return isinstance(e, ast.Name) and self.stable_name(e.id, at, bound)
+
+    def stable_value(self, e: ast.AST, at: tuple) -> bool:
+        """a constant, a stable path, or an entry TABLE[<constant>] of a module / class level table (evaluating it again gives the same)"""
+        if isinstance(e, ast.Constant) or self.stable_path(e, at):
+            return True
+        if isinstance(e, ast.Subscript) and isinstance(e.slice, ast.Constant):
+            root = e.value
+            while isinstance(root, ast.Attribute):
+                root = root.value
+            return isinstance(root, ast.Name) and (self.is_global(root.id) or root.id == self.fi.self_name) and self.stable_path(e.value, at)
+        return False
+
+    def stable_free_names(self, e: ast.AST, at: tuple, bound: frozenset) -> bool:
+        """every name read in the expression (evaluated later, possibly several times) is stable; names bound inside (lambda
+        parameters, comprehension variables) are the expression's own"""
+        inner = set(bound)
+        for n in ast.walk(e):
+            if isinstance(n, ast.arg):
+                inner.add(n.arg)
+            elif isinstance(n, ast.Name) and not isinstance(n.ctx, ast.Load):
+                inner.add(n.id)
+            elif isinstance(n, ast.NamedExpr):
+                return False
+        for n in ast.walk(e):
+            if isinstance(n, ast.Name) and isinstance(n.ctx, ast.Load) and n.id not in inner and not self.stable_name(n.id, at):
+                return False
+            if isinstance(n, ast.Attribute) and n.attr in self.attr_stores:
+                return False
+        return True
+
+    def function_value(self, v: ast.AST, at: tuple, depth: int = 0) -> Optional[str]:
+        """'value' when the expression is a function value that means the same wherever it is written below `at` (a lambda over
+        stable names, functools.partial of such a function with constant / stable arguments, operator.<f>, attrgetter / itemgetter /
+        methodcaller of constants); 'path' for a bound method / function named by a stable path; None otherwise"""
+        if depth > 4:
+            return None
+        fv = self.fv
+        if isinstance(v, ast.Lambda):
+            a = v.args
+            if a.defaults or a.kw_defaults or a.vararg or a.kwarg or a.kwonlyargs or a.posonlyargs:
+                return None
+            return "value" if self.stable_free_names(v.body, at, frozenset(x.arg for x in a.args)) else None
+        if fv.is_partial(v):
+            if self.function_value(v.args[0], at, depth + 1) is None:
+                return None
+            for x in list(v.args[1:]) + [k.value for k in v.keywords]:
+                if not self.stable_value(x, at):
+                    return None
+            return "value"
+        if isinstance(v, (ast.Name, ast.Attribute)):
+            if fv.is_value(v):
+                return "value"                      # operator.eq & co
+            if isinstance(v, ast.Name):
+                if not self.is_global(v.id):
+                    return None
+                r = self.repo.lookup(self.fi.mod.name, v.id)
+                return "path" if r is None or r[0] in ("func", "external", "class") else None
+            return "path" if self.stable_path(v, at) else None
+        if isinstance(v, ast.Call) and fv.is_value(v):
+            return "value" if all(isinstance(x, ast.Constant) for x in list(v.args) + [k.value for k in v.keywords]) else None
+        return None
+
+
+def _as_lambda(st: ast.stmt) -> Optional[ast.Lambda]:
+    """`def f(a, b): ["doc"] return E`  as  `lambda a, b: E`"""
+    if not isinstance(st, ast.FunctionDef) or st.decorator_list:
+        return None
+    body = list(st.body)
+    if body and isinstance(body[0], ast.Expr) and isinstance(body[0].value, ast.Constant) and isinstance(body[0].value.value, str):
+        body = body[1:]
+    if len(body) != 1 or not isinstance(body[0], ast.Return) or body[0].value is None:
+        return None
+    a = st.args
+    if a.defaults or a.kw_defaults or a.vararg or a.kwarg or a.kwonlyargs or a.posonlyargs:
+        return None
+    if any(isinstance(n, (ast.Yield, ast.YieldFrom, ast.Await)) for n in ast.walk(body[0].value)):
+        return None
+    args = ast.arguments(posonlyargs=[], args=[ast.arg(arg=x.arg, annotation=None) for x in a.args], vararg=None, kwonlyargs=[], kw_defaults=[], kwarg=None, defaults=[])
+    return ast.copy_location(ast.Lambda(args=args, body=body[0].value), st)
+
+
+_FUNCTION_TAKERS = ("iter", "map", "filter", "partial", "reduce", "starmap", "takewhile", "dropwhile", "filterfalse")
+
+
+def _substitute_local_function_values(sc: _Scope) -> bool:
+    """one binding `name = <function value>` whose uses all lie below it is dissolved into its uses; True when that happened"""
+    fn = sc.fn
+    parents: Dict[int, ast.AST] = {}
+    for n in ast.walk(fn):
+        for ch in ast.iter_child_nodes(n):
+            parents[id(ch)] = n
+    cands: List[Tuple[str, ast.stmt, ast.AST]] = []
+    for name, st in sc.single.items():
+        cands.append((name, st, st.value))
+    for n in ast.walk(fn):
+        if isinstance(n, ast.FunctionDef) and n is not fn and len(sc.stores.get(n.name, [])) == 1 and n.name not in sc.params:
+            lam = _as_lambda(n)
+            if lam is not None:
+                cands.append((n.name, n, lam))
+    for name, st, value in cands:
+        at = sc.paths.get(id(st))
+        if at is None:
+            continue
+        kind = sc.function_value(value, at)
+        if kind is None:
+            continue
+        loads = [n for n in ast.walk(fn) if isinstance(n, ast.Name) and n.id == name and isinstance(n.ctx, ast.Load)]
+        if not loads or any(id(x) in {id(y) for y in ast.walk(st)} for x in loads):
+            continue
+        if not all(_block_dominates(at, sc.paths.get(id(x), ())) for x in loads):
+            continue
+        if kind == "path":
+            # an alias of a method / function: only when the name is used as a function (called, or handed to iter / partial / map ..)
+            def functional(x: ast.Name) -> bool:
+                par = parents.get(id(x))
+                if not isinstance(par, ast.Call):
+                    return False
+                if par.func is x:
+                    return True
+                callee = par.func.attr if isinstance(par.func, ast.Attribute) else (par.func.id if isinstance(par.func, ast.Name) else "")
+                return bool(par.args) and par.args[0] is x and callee in _FUNCTION_TAKERS
+            if not all(functional(x) for x in loads):
+                continue
+        fv = sc.fv
+
+        class Sub(ast.NodeTransformer):
+            def visit_Name(self, n):
+                if n.id == name and isinstance(n.ctx, ast.Load):
+                    new = _copy.deepcopy(value)
+                    for x in ast.walk(new):
+                        if isinstance(x, (ast.expr, ast.stmt)):
+                            ast.copy_location(x, n)
+                    return new
+                return n
+
+            def visit_Call(self, c):
+                self.generic_visit(c)
+                if fv.is_value(c.func):
+                    got = fv.apply(c.func, list(c.args), list(c.keywords))
+                    if got is not None:
+                        ast.copy_location(got, c)
+                        return ast.fix_missing_locations(got)
+                return c
+
+        Sub().visit(fn)
+        # the binding is dead and its value has no effects
+        for holder in ast.walk(fn):
+            for fld in ("body", "orelse", "finalbody"):
+                sub = getattr(holder, fld, None)
+                if isinstance(sub, list) and any(s is st for s in sub):
+                    new = [s for s in sub if s is not st]
+                    setattr(holder, fld, new or ([ast.copy_location(ast.Pass(), st)] if fld == "body" else []))
+        return True
+    return False
+
+
+def _effect_free(sc: _Scope, e: ast.AST) -> bool:
+    """evaluating the expression does nothing but build a value (names, attribute paths, constants, displays, lambdas, constructors of
+    function values)"""
+    for n in ast.walk(e):
+        if isinstance(n, ast.Call):
+            if not (sc.fv.is_partial(n) or (sc.fv.is_value(n) and not isinstance(n, ast.Lambda))):
+                return False
+        elif not isinstance(n, (ast.Name, ast.Attribute, ast.Constant, ast.Tuple, ast.List, ast.Lambda, ast.arguments, ast.arg, ast.expr_context,
+                                ast.keyword, ast.Compare, ast.cmpop, ast.BoolOp, ast.boolop, ast.UnaryOp, ast.unaryop, ast.BinOp, ast.operator, ast.Subscript)):
+            return False
+    return True
+
+
+def _drop_dead_bindings(sc: _Scope) -> bool:
+    """`name = <effect-free expression>` for a name that is never read (the loop variables an unrolled table loop leaves behind:
+    `handle = self._read_list`) is removed"""
+    loads = {n.id for n in ast.walk(sc.fn) if isinstance(n, ast.Name) and isinstance(n.ctx, ast.Load)}
+    changed = False
+    for holder in ast.walk(sc.fn):
+        for fld in ("body", "orelse", "finalbody"):
+            sub = getattr(holder, fld, None)
+            if not (isinstance(sub, list) and sub and isinstance(sub[0], ast.stmt)):
+                continue
+            keep = []
+            for st in sub:
+                if isinstance(st, ast.Assign) and len(st.targets) == 1 and isinstance(st.targets[0], ast.Name) and st.targets[0].id not in loads \
+                        and st.targets[0].id not in sc.params and _effect_free(sc, st.value) and \
+                        any(isinstance(n, (ast.Attribute, ast.Lambda, ast.Call)) or (isinstance(n, ast.Name) and sc.is_global(n.id)) for n in ast.walk(st.value)) \
+                        and not isinstance(st.value, ast.Constant):
+                    changed = True
+                    continue
+                keep.append(st)
+            if len(keep) != len(sub):
+                setattr(holder, fld, keep or ([ast.copy_location(ast.Pass(), sub[0])] if fld == "body" else []))
+    return changed
+
+
+def _is_builtin(sc: _Scope, e: ast.AST, name: str) -> bool:
+    return isinstance(e, ast.Name) and e.id == name and sc.is_global(name) and sc.repo.lookup(sc.fi.mod.name, name) is None
+
+
+def _sentinel_iter(sc: _Scope, it: ast.AST, at: tuple) -> Optional[Tuple[ast.AST, ast.AST]]:
+    """(the expression `F()`, the sentinel S) for `iter(F, S)` with a function value / stable method F and a constant / stable S"""
+    if not (isinstance(it, ast.Call) and _is_builtin(sc, it.func, "iter") and len(it.args) == 2 and not it.keywords
+            and not any(isinstance(a, ast.Starred) for a in it.args)):
+        return None
+    f_, s_ = it.args
+    if not sc.stable_value(s_, at):
+        return None
+    kind = sc.function_value(f_, at)
+    if kind is None:
+        return None
+    call: Optional[ast.AST] = None
+    if sc.fv.is_value(f_):
+        call = sc.fv.apply(_copy.deepcopy(f_), [], [])
+    if call is None:
+        call = ast.Call(func=_copy.deepcopy(f_), args=[], keywords=[])
+    return call, _copy.deepcopy(s_)
+
+
+def _sentinel_loop(target: ast.AST, call: ast.AST, sentinel: ast.AST, body: List[ast.stmt], orelse: List[ast.stmt], at: ast.AST) -> ast.stmt:
+    tmp = f"__next__d{next(_fresh)}"
+    stop = ast.If(test=ast.Compare(left=ast.Name(id=tmp, ctx=ast.Load()), ops=[ast.Eq()], comparators=[sentinel]), body=list(orelse) + [ast.Break()], orelse=[])
+    new = ast.While(test=ast.Constant(value=True), body=[
+        ast.Assign(targets=[ast.Name(id=tmp, ctx=ast.Store())], value=call, lineno=at.lineno),
+        stop,
+        ast.Assign(targets=[target], value=ast.Name(id=tmp, ctx=ast.Load()), lineno=at.lineno)] + list(body), orelse=[])
+    for x in ast.walk(new):
+        if isinstance(x, (ast.expr, ast.stmt)) and not hasattr(x, "lineno"):
+            ast.copy_location(x, at)
+    return ast.copy_location(new, at)
+
+
+def _has_private_call(e: ast.AST) -> bool:
+    for n in ast.walk(e):
+        if isinstance(n, ast.Call):
+            nm = n.func.attr if isinstance(n.func, ast.Attribute) else (n.func.id if isinstance(n.func, ast.Name) else "")
+            if nm and _is_private(nm) and not getattr(n, "_no_inline", False):
+                return True
+    return False
+
+
+def _rewrite_loops(sc: _Scope) -> bool:
+    """sentinel iterators, comprehensions over them and while tests that call private helpers (see the section comment)"""
+    changed = [False]
+    flattener = Flattener(sc.repo, sc.fi)
+
+    def comp_over_sentinel(v: ast.AST) -> Optional[ast.AST]:
+        if isinstance(v, ast.Call) and _is_builtin(sc, v.func, "list") and len(v.args) == 1 and not v.keywords and isinstance(v.args[0], ast.GeneratorExp):
+            v = v.args[0]
+        elif not isinstance(v, ast.ListComp):
+            return None
+        it = v.generators[0].iter
+        if isinstance(it, ast.Call) and _is_builtin(sc, it.func, "iter") and len(it.args) == 2 and not any(g.is_async for g in v.generators):
+            return v
+        return None
+
+    def block(stmts: List[ast.stmt]) -> List[ast.stmt]:
+        out: List[ast.stmt] = []
+        for st in stmts:
+            if not isinstance(st, _SCOPES):
+                for fld in ("body", "orelse", "finalbody"):
+                    sub = getattr(st, fld, None)
+                    if isinstance(sub, list) and sub and isinstance(sub[0], ast.stmt):
+                        setattr(st, fld, block(sub))
+                for h in list(getattr(st, "handlers", []) or []) + list(getattr(st, "cases", []) or []):
+                    h.body = block(h.body)
+            at = sc.paths.get(id(st), ())
+            # X = [E for T in iter(F, S)]  ->  tmp = []; for T in iter(F, S): tmp.append(E); X = tmp
+            val = getattr(st, "value", None) if isinstance(st, (ast.Assign, ast.AnnAssign, ast.Return)) else None
+            comp = comp_over_sentinel(val) if val is not None else None
+            if comp is not None and at and _sentinel_iter(sc, comp.generators[0].iter, at) is not None:
+                tmp = f"__comp__d{next(_fresh)}"
+                loops = flattener._expand_comprehension(ast.ListComp(elt=comp.elt, generators=comp.generators), tmp, st)
+                if loops is not None:
+                    init = ast.copy_location(ast.Assign(targets=[ast.Name(id=tmp, ctx=ast.Store())], value=ast.List(elts=[], ctx=ast.Load()), lineno=st.lineno), st)
+                    st.value = ast.copy_location(ast.Name(id=tmp, ctx=ast.Load()), val)
+                    new = [init] + loops + [st]
+                    for x in new:
+                        ast.fix_missing_locations(x)
+                        sc.paths.setdefault(id(x), at)
+                        for y in ast.walk(x):
+                            sc.paths.setdefault(id(y), at)
+                    changed[0] = True
+                    out.extend(block(new[:-1]))
+                    out.append(st)
+                    continue
+            if isinstance(st, ast.For) and at:
+                got = _sentinel_iter(sc, st.iter, at)
+                if got is not None and not _own_jumps(st.orelse):
+                    changed[0] = True
+                    out.append(_sentinel_loop(st.target, got[0], got[1], st.body, st.orelse, st))
+                    continue
+            if isinstance(st, ast.While) and not (isinstance(st.test, ast.Constant) and st.test.value is True) and _has_private_call(st.test) \
+                    and not _own_jumps(st.orelse):
+                changed[0] = True
+                stop = ast.If(test=ast.UnaryOp(op=ast.Not(), operand=st.test), body=list(st.orelse) + [ast.Break()], orelse=[])
+                new = ast.While(test=ast.Constant(value=True), body=[stop] + list(st.body), orelse=[])
+                for x in ast.walk(new):
+                    if isinstance(x, (ast.expr, ast.stmt)) and not hasattr(x, "lineno"):
+                        ast.copy_location(x, st)
+                out.append(ast.copy_location(new, st))
+                continue
+            out.append(st)
+        return out
+
+    sc.fn.body = block(sc.fn.body)
+    return changed[0]
+
+
+def _constant_collection(sc: _Scope, e: ast.AST, depth: int = 0) -> Optional[List[ast.Constant]]:
+    """the constants of a tuple / list / set display (also frozenset(..) / set(..) / tuple(..) of one, or a module-level name bound to one)"""
+    if isinstance(e, (ast.Tuple, ast.List, ast.Set)):
+        return list(e.elts) if e.elts and all(isinstance(x, ast.Constant) for x in e.elts) else None
+    if isinstance(e, ast.Call) and isinstance(e.func, ast.Name) and e.func.id in ("frozenset", "set", "tuple", "list") and sc.is_global(e.func.id) \
+            and len(e.args) == 1 and not e.keywords and depth < 3:
+        return _constant_collection(sc, e.args[0], depth + 1)
+    if isinstance(e, ast.Name) and sc.is_global(e.id) and depth < 3:
+        r = sc.repo.lookup(sc.fi.mod.name, e.id)
+        if r is not None and r[0] == "const" and isinstance(r[1], ast.AST):
+            return _constant_collection(sc, r[1], depth + 1)
+    return None
+
+
+def _rewrite_membership(sc: _Scope) -> bool:
+    """`X in (c1, c2)` -> `X == c1 or X == c2`, `X not in (c1,)` -> `X != c1` for a collection of at most four constants fixed by the
+    source text and X a name or NAME[<constant>] (reading it again reads the same)"""
+    changed = [False]
+
+    def simple(x: ast.AST) -> bool:
+        return isinstance(x, ast.Name) or (isinstance(x, ast.Subscript) and isinstance(x.value, ast.Name) and isinstance(x.slice, ast.Constant))
+
+    class T(ast.NodeTransformer):
+        def visit_Compare(self, n):
+            self.generic_visit(n)
+            if len(n.ops) == 1 and isinstance(n.ops[0], (ast.In, ast.NotIn)) and simple(n.left):
+                consts = _constant_collection(sc, n.comparators[0])
+                if consts is not None and len(consts) <= 4 and all(isinstance(c.value, str) for c in consts):
+                    member = isinstance(n.ops[0], ast.In)
+                    parts = [ast.Compare(left=_copy.deepcopy(n.left), ops=[ast.Eq() if member else ast.NotEq()], comparators=[ast.Constant(value=c.value)]) for c in consts]
+                    new = parts[0] if len(parts) == 1 else ast.BoolOp(op=ast.Or() if member else ast.And(), values=parts)
+                    for x in ast.walk(new):
+                        if isinstance(x, ast.expr):
+                            ast.copy_location(x, n)
+                    changed[0] = True
+                    return new
+            return n
+
+    T().visit(sc.fn)
+    return changed[0]
+
+
+def _rewrite_list_growth(sc: _Scope) -> bool:
+    """`X = X + [E]` / `X = [*X, E]` -> `X.append(E)` for a local list that has no other name (it is only grown, measured, iterated
+    and returned), so building a new list and extending the old one cannot be told apart"""
+    parents: Dict[int, ast.AST] = {}
+    for n in ast.walk(sc.fn):
+        for ch in ast.iter_child_nodes(n):
+            parents[id(ch)] = n
+
+    def grown(st: ast.stmt) -> Optional[Tuple[str, List[ast.AST]]]:
+        if not (isinstance(st, ast.Assign) and len(st.targets) == 1 and isinstance(st.targets[0], ast.Name)):
+            return None
+        name, v = st.targets[0].id, st.value
+        if isinstance(v, ast.BinOp) and isinstance(v.op, ast.Add) and isinstance(v.left, ast.Name) and v.left.id == name and isinstance(v.right, ast.List) \
+                and v.right.elts and not any(isinstance(x, ast.Starred) for x in v.right.elts):
+            return name, list(v.right.elts)
+        if isinstance(v, ast.List) and len(v.elts) >= 2 and isinstance(v.elts[0], ast.Starred) and isinstance(v.elts[0].value, ast.Name) and v.elts[0].value.id == name \
+                and not any(isinstance(x, ast.Starred) for x in v.elts[1:]):
+            return name, list(v.elts[1:])
+        return None
+
+    def unaliased(name: str) -> bool:
+        if name in sc.params:
+            return False
+        for st_ in sc.stores.get(name, []):
+            par = parents.get(id(st_))
+            if not (isinstance(par, (ast.Assign, ast.AnnAssign)) and (grown(par) is not None or isinstance(par.value, (ast.List, ast.ListComp)) or
+                                                                      (isinstance(par.value, ast.Call) and isinstance(par.value.func, ast.Name) and par.value.func.id == "list"
+                                                                       and not par.value.args))):
+                return False
+        for n in ast.walk(sc.fn):
+            if isinstance(n, ast.Name) and n.id == name and isinstance(n.ctx, ast.Load):
+                par = parents.get(id(n))
+                if isinstance(par, ast.Return) or (isinstance(par, ast.Attribute) and isinstance(parents.get(id(par)), ast.Call) and parents[id(par)].func is par
+                                                   and par.attr in ("append", "extend", "insert", "__len__", "copy", "count", "index")):
+                    continue
+                if isinstance(par, ast.Call) and isinstance(par.func, ast.Name) and par.func.id in ("len", "bool", "tuple", "list", "reversed", "iter") and len(par.args) == 1:
+                    continue
+                if isinstance(par, ast.BinOp) and par.left is n and grown(parents.get(id(par))) is not None:
+                    continue
+                if isinstance(par, ast.Starred) and isinstance(parents.get(id(par)), ast.List) and grown(parents.get(id(parents[id(par)]))) is not None:
+                    continue
+                if isinstance(par, (ast.For, ast.comprehension)) and par.iter is n:
+                    continue
+                if isinstance(par, (ast.If, ast.While)) and par.test is n:
+                    continue
+                return False
+        return True
+
+    changed = False
+    for holder in ast.walk(sc.fn):
+        for fld in ("body", "orelse", "finalbody"):
+            sub = getattr(holder, fld, None)
+            if not (isinstance(sub, list) and sub and isinstance(sub[0], ast.stmt)):
+                continue
+            out: List[ast.stmt] = []
+            here = False
+            for st in sub:
+                gr = grown(st)
+                if gr is not None and unaliased(gr[0]):
+                    here = True
+                    for el in gr[1]:
+                        call = ast.Call(func=ast.Attribute(value=ast.Name(id=gr[0], ctx=ast.Load()), attr="append", ctx=ast.Load()), args=[el], keywords=[])
+                        new = ast.Expr(value=call)
+                        for x in ast.walk(new):
+                            if isinstance(x, (ast.expr, ast.stmt)) and not hasattr(x, "lineno"):
+                                ast.copy_location(x, st)
+                        out.append(new)
+                    changed = True
+                else:
+                    out.append(st)
+            if here:
+                setattr(holder, fld, out)
+    return changed
+
+
+def _match_to_if(sc: _Scope) -> bool:
+    """`match NAME:` over literal patterns (constants, alternatives of constants, the wildcard, a capture of the whole subject,
+    guards)  ->  the if / elif chain of `NAME == <constant>` tests it abbreviates"""
+    changed = [False]
+
+    def test_of(pat: ast.AST, subj: ast.Name) -> Optional[Tuple[Optional[ast.AST], Optional[str]]]:
+        """(test or None for 'always', capture name)"""
+        if isinstance(pat, ast.MatchValue) and isinstance(pat.value, ast.Constant) and isinstance(pat.value.value, (str, int)) and not isinstance(pat.value.value, bool):
+            return ast.Compare(left=_copy.deepcopy(subj), ops=[ast.Eq()], comparators=[ast.Constant(value=pat.value.value)]), None
+        if isinstance(pat, ast.MatchOr):
+            parts = [test_of(p_, subj) for p_ in pat.patterns]
+            if any(p_ is None or p_[0] is None or p_[1] is not None for p_ in parts):
+                return None
+            return ast.BoolOp(op=ast.Or(), values=[p_[0] for p_ in parts]), None
+        if isinstance(pat, ast.MatchAs) and pat.pattern is None:
+            return None, pat.name
+        return None
+
+    def block(stmts: List[ast.stmt]) -> List[ast.stmt]:
+        out: List[ast.stmt] = []
+        for st in stmts:
+            if not isinstance(st, _SCOPES):
+                for fld in ("body", "orelse", "finalbody"):
+                    sub = getattr(st, fld, None)
+                    if isinstance(sub, list) and sub and isinstance(sub[0], ast.stmt):
+                        setattr(st, fld, block(sub))
+                for h in list(getattr(st, "handlers", []) or []) + list(getattr(st, "cases", []) or []):
+                    h.body = block(h.body)
+            if isinstance(st, ast.Match) and isinstance(st.subject, ast.Name):
+                arms = []
+                ok = True
+                for c in st.cases:
+                    t_ = test_of(c.pattern, st.subject)
+                    if t_ is None or (t_[1] is not None and c.guard is not None):
+                        ok = False
+                        break
+                    test, cap = t_
+                    body = list(c.body)
+                    if cap is not None:
+                        body = [ast.Assign(targets=[ast.Name(id=cap, ctx=ast.Store())], value=_copy.deepcopy(st.subject), lineno=st.lineno)] + body
+                    if c.guard is not None:
+                        test = c.guard if test is None else ast.BoolOp(op=ast.And(), values=[test, c.guard])
+                    arms.append((test, body))
+                if ok and arms:
+                    new: List[ast.stmt] = []
+                    for test, body in reversed(arms):
+                        new = list(body) if test is None else [ast.If(test=test, body=body, orelse=new)]
+                    for top in new:
+                        for x in ast.walk(top):
+                            if isinstance(x, (ast.expr, ast.stmt)) and not hasattr(x, "lineno"):
+                                ast.copy_location(x, st)
+                    changed[0] = True
+                    out.extend(new)
+                    continue
+            out.append(st)
+        return out
+
+    sc.fn.body = block(sc.fn.body)
+    return changed[0]
+
+
+def normalise_function_values(repo: Repo, fi: FuncInfo) -> FuncInfo:
+    """the function after the local normalisations (the same object when nothing applies)"""
+    fn = _copy.deepcopy(fi.node)
+    changed = False
+    for _round in range(12):
+        sc = _Scope(repo, fi, fn)
+        if sc.opaque:
+            break
+        if _substitute_local_function_values(sc):
+            changed = True
+            continue
+        if _rewrite_loops(sc):
+            changed = True
+            continue
+        if _drop_dead_bindings(sc):
+            changed = True
+            continue
+        if _match_to_if(sc) or _rewrite_membership(sc) or _rewrite_list_growth(sc):
+            changed = True
+            continue
+        break
+    if not changed:
+        return fi
+    ast.fix_missing_locations(fn)
+    out = FuncInfo(fi.mod, fi.cls, fn, static=fi.static)
+    out.qn = fi.qn
+    for a in ("flat_of", "inlined", "inlined_bodies"):
+        if hasattr(fi, a):
+            setattr(out, a, getattr(fi, a))
+    return out
+
+
+def prepared(repo: Repo, fi: FuncInfo, depth: int = 4) -> FuncInfo:
+    """flatten(fi) with the local normalisations applied before and after inlining (helpers are normalised where they were inlined;
+    what the rewrites expose -- `peek()` that became `self._peek(tokens)` -- is inlined in the next round)"""
+    key = (id(repo), fi.qn, id(fi.node), depth)
+    if key in _PREPARED:
+        return _PREPARED[key][1]
+    cur = flatten(repo, normalise_function_values(repo, fi), depth)
+    for _round in range(3):
+        nxt = normalise_function_values(repo, cur)
+        if nxt is cur:
+            break
+        cur = flatten(repo, nxt, depth)
+        if not hasattr(cur, "flat_of"):
+            break
+    _PREPARED[key] = (fi, cur)
+    return cur
